@@ -199,7 +199,7 @@ type outcome struct {
 	Results  []string `json:"results"`
 }
 
-const hangBound = 6 * time.Second // >= 5 s and >= 3x the configured protocol timeouts (1 s)
+const hangBound = 12 * time.Second // >= 5 s and >= 3x the configured protocol timeouts (1 s); generous for loaded machines
 
 func classify(err error) string {
 	if err == nil {
@@ -335,18 +335,27 @@ func runScenario(sc scenario) (out outcome) {
 		}
 		out.Results = append(out.Results, res)
 		if c.Kind == "GR" && res == "OK" {
-			for _, m := range c.Reply {
-				if m == "BD" || (strings.HasPrefix(m, "B") && m != "BX") {
+			// callbacks that MUST still come: the decodable blocks up to the first message that
+			// is not a block, plus the BatchDone if it ends the batch regularly
+			for _, m := range c.Reply[1:] {
+				if m == "BD" {
 					expectedCb++
-				}
-				if m == "BX" {
 					break
 				}
+				if m == "BX" || !strings.HasPrefix(m, "B") {
+					break
+				}
+				expectedCb++
 			}
 		}
 	}
 	// let the callbacks of a trailing range finish (bounded; only matters when they never come)
-	deadline := time.Now().Add(2 * time.Second)
+	wait := 15 * time.Second // generous: only reached when callbacks never come
+	if cbTimedOut {
+		wait = time.Second // pay the long bound once per run
+	}
+	deadline := time.Now().Add(wait)
+	got := false
 	for time.Now().Before(deadline) {
 		n := 0
 		for _, e := range lg.Snapshot() {
@@ -355,9 +364,13 @@ func runScenario(sc scenario) (out outcome) {
 			}
 		}
 		if n >= expectedCb {
+			got = true
 			break
 		}
 		time.Sleep(2 * time.Millisecond)
+	}
+	if !got {
+		cbTimedOut = true
 	}
 	if !out.Hung {
 		time.Sleep(3 * time.Millisecond) // a surplus callback would show up here
@@ -609,6 +622,7 @@ func monitor(c *vh.Ctx, sc scenario, out outcome) {
 // ---- generator ----------------------------------------------------------------
 
 var skipClass = map[string]bool{}
+var cbTimedOut bool
 
 func genCall(r *vh.Rng, forceClass string) call {
 	f := r.Intn(len(fixtures))
